@@ -1,6 +1,9 @@
 package anthropic
 
-import "fmt"
+import (
+	"encoding/json"
+	"fmt"
+)
 
 // AnthropicRequest represents an Anthropic API request
 // Maps to the Anthropic Messages API format
@@ -67,6 +70,36 @@ type ContentBlock struct {
 	ID        string                 `json:"id,omitempty"`
 	Name      string                 `json:"name,omitempty"`
 	ToolUseID string                 `json:"tool_use_id,omitempty"`
+	rawInput  json.RawMessage        // tool_use arguments exactly as the backend wrote them, when it did
+}
+
+// MarshalJSON keeps the members the Messages API always sends: "input" on a tool_use block
+// (a call without arguments is {}, not a missing member) and "text" on a text block.
+func (c ContentBlock) MarshalJSON() ([]byte, error) {
+	type plain ContentBlock
+	switch c.Type {
+	case contentTypeToolUse:
+		if len(c.rawInput) > 0 {
+			return json.Marshal(struct {
+				Input json.RawMessage `json:"input"`
+				plain
+			}{Input: c.rawInput, plain: plain(c)})
+		}
+		input := c.Input
+		if input == nil {
+			input = map[string]interface{}{}
+		}
+		return json.Marshal(struct {
+			Input map[string]interface{} `json:"input"`
+			plain
+		}{Input: input, plain: plain(c)})
+	case contentTypeText:
+		return json.Marshal(struct {
+			Text string `json:"text"`
+			plain
+		}{Text: c.Text, plain: plain(c)})
+	}
+	return json.Marshal(plain(c))
 }
 
 // ImageSource represents image data in content blocks
